@@ -415,7 +415,13 @@ func (g *Gen) Bool(depth int) *E {
 	case 0:
 		ops := []string{"=", "=", "!=", "<", ">", "<=", ">="}
 		var l, rr *E
-		switch r.Weighted([]int{5, 2, 2, 2, 1}) {
+		switch r.Weighted([]int{5, 2, 2, 2, 1, 2}) {
+		case 5:
+			// the simplest operands there are: the context node, its parent, the root
+			l, rr = g.simplePath(), g.lit()
+			if r.Chance(1, 3) {
+				rr = g.simplePath()
+			}
 		case 0:
 			l, rr = g.NodeSet(d), g.lit()
 		case 1:
@@ -463,6 +469,23 @@ func (g *Gen) mapArg(depth int) *E {
 		return &E{Op: "path", Kids: []*E{{Op: "step", S: r.Pick([]string{"ancestor", "ancestor-or-self"}), T: g.nodeTest("child")}}}
 	default:
 		return g.strArg(depth)
+	}
+}
+
+// simplePath: ".", "..", "/", "@name" or "*".
+func (g *Gen) simplePath() *E {
+	r := g.R
+	switch r.Intn(5) {
+	case 0:
+		return &E{Op: "path", Kids: []*E{{Op: "step", S: "self", T: "node()", Abbr: true}}}
+	case 1:
+		return &E{Op: "path", Kids: []*E{{Op: "step", S: "parent", T: "node()", Abbr: true}}}
+	case 2:
+		return &E{Op: "path", S: "/"}
+	case 3:
+		return &E{Op: "path", Kids: []*E{{Op: "step", S: "attribute", T: g.attrName(), Abbr: true}}}
+	default:
+		return &E{Op: "path", Kids: []*E{{Op: "step", S: "child", T: "*", Abbr: true}}}
 	}
 }
 
